@@ -347,8 +347,14 @@ func (vc *VC) loopHead(fr *Frame, li *loopInfo, cur *State, ins []edgeState) *St
 						v = cv
 					} else {
 						if in, isInstr := r.(ssa.Instruction); isInstr && li.body[in.Block()] {
-							ok = false
-							break
+							// a value recomputed in every iteration from memory the loop does not write
+							sv, stable := vc.stableValue(fr, st, mods, li, r, 0)
+							if !stable {
+								ok = false
+								break
+							}
+							v = sv
+							goto haveRoot
 						}
 						var has bool
 						v, has = fr.regs[r]
@@ -364,6 +370,7 @@ func (vc *VC) loopHead(fr *Frame, li *loopInfo, cur *State, ins []edgeState) *St
 							break
 						}
 					}
+				haveRoot:
 					switch {
 					case v.K == KRef && v.T != nil && isMapType(v.T):
 						refs = append(refs, v.S)
@@ -563,6 +570,75 @@ func (vc *VC) loopInvariants(fr *Frame, li *loopInfo) []invariant {
 	return out
 }
 
+// stableValue evaluates, in the state before the loop, an SSA value that is computed inside the
+// loop body from loads of memory the loop provably does not write (locals it does not assign,
+// fields whose heap variables are not in the modification set). Such a value is the same in every
+// iteration, so it can serve as a modification root.
+func (vc *VC) stableValue(fr *Frame, st *State, mods *modSet, li *loopInfo, v ssa.Value, depth int) (Val, bool) {
+	if depth > 8 || mods.all {
+		return Val{}, false
+	}
+	if in, isInstr := v.(ssa.Instruction); !isInstr || !li.body[in.Block()] {
+		if al, isAlloc := v.(*ssa.Alloc); isAlloc {
+			if c := fr.cellOf[al]; c != nil {
+				return Val{K: KPtr, T: al.Type(), L: &Loc{Kind: locCell, Cell: c}}, !mods.allocs[al]
+			}
+		}
+		switch v.(type) {
+		case *ssa.Parameter, *ssa.Global, *ssa.FreeVar, *ssa.Const:
+			x := vc.value(fr, v)
+			return x, x.K != KBad
+		}
+		x, has := fr.regs[v]
+		return x, has && x.K != KBad
+	}
+	switch in := v.(type) {
+	case *ssa.FieldAddr:
+		x, ok := vc.stableValue(fr, st, mods, li, in.X, depth+1)
+		if !ok || x.K != KPtr || x.L == nil {
+			return Val{}, false
+		}
+		return Val{K: KPtr, T: in.Type(), L: x.L.extend(pathElem{Field: in.Field})}, true
+	case *ssa.UnOp:
+		if in.Op != token.MUL {
+			return Val{}, false
+		}
+		x, ok := vc.stableValue(fr, st, mods, li, in.X, depth+1)
+		if !ok || x.K != KPtr || x.L == nil {
+			return Val{}, false
+		}
+		switch x.L.Kind {
+		case locCell:
+			if _, live := st.cells[x.L.Cell]; !live {
+				return Val{}, false
+			}
+			for a := range mods.allocs {
+				if fr.cellOf[a] == x.L.Cell {
+					return Val{}, false
+				}
+			}
+		case locObj:
+			prefix, t, idx := pathPrefix(x.L.Base, x.L.Path)
+			if idx != "" {
+				return Val{}, false
+			}
+			for _, lf := range leavesOf(t) {
+				if lf.bad {
+					return Val{}, false
+				}
+				if _, written := mods.heap[fieldHeap(x.L.Base, prefix+lf.path)]; written {
+					return Val{}, false
+				}
+			}
+		default:
+			return Val{}, false
+		}
+		r := vc.load(st, x.L)
+		return r, r.K != KBad
+	}
+	return Val{}, false
+}
+
 type modSet struct {
 	allocs map[*ssa.Alloc]bool
 	heap   map[string]string // heap var -> sort
@@ -730,7 +806,9 @@ func (vc *VC) modsOfCall(c *ssa.CallCommon, ms *modSet, depth int, seen map[*ssa
 				addHeapLeaves(ms, st.Elem(), "", st.Elem(), true)
 			}
 		case "delete", "clear":
+			ms.cur = c.Args[0]
 			vc.addMapMods(ms, c.Args[0].Type())
+			ms.cur = nil
 		}
 		return
 	}
